@@ -167,6 +167,7 @@ type State struct {
 	threadSeq int
 	phase    int
 	exiting  *Thread // transient: thread whose exit is being scheduled
+	crashPending Value // crash signal raised in a spawned thread, re-raised by vJoin
 	kern     *Kernel
 	covers   map[string]bool
 }
@@ -220,6 +221,7 @@ func (s *State) clone() *State {
 	n.instrChoices = append([]int(nil), s.instrChoices...)
 	n.threadSeq = s.threadSeq
 	n.phase = s.phase
+	n.crashPending = s.crashPending
 	if s.kern != nil {
 		n.kern = s.kern.clone()
 	}
